@@ -248,6 +248,7 @@ func (st *State) loadAtIn(h *HeapView, a Addr) Value {
 	term := selectChain(st.heapTermIn(h, a.Key, len(idx), scalarSort(k)), idx)
 	v := Value{K: k, T: term, Ty: t}
 	st.assumeTypeInv(v)
+	st.assumeNonNil(v)
 	return v
 }
 
@@ -319,6 +320,24 @@ func (st *State) assumeSliceInv(v Value) {
 	st.assume(fmt.Sprintf("(=> (= %s 0) (= %s 0))", v.Arr, v.Cap))
 }
 
+// assumeNonNil applies the declared non-nil invariants (heap locations and parameters of the
+// listed named types never hold nil).
+func (st *State) assumeNonNil(v Value) {
+	if st.quietInv > 0 || len(st.fx.eng.cs.NonNil) == 0 {
+		return
+	}
+	switch v.K {
+	case VRef, VIface, VFunc, VMap, VChan:
+		if v.Ty != nil && st.fx.eng.cs.NonNil[fullTypeName(v.Ty)] {
+			st.assume("(not (= " + v.T + " 0))")
+		}
+	case VStruct, VTuple:
+		for _, f := range v.Fs {
+			st.assumeNonNil(f)
+		}
+	}
+}
+
 func (st *State) assumeTypeInv(v Value) {
 	if st.quietInv > 0 {
 		return
@@ -328,9 +347,6 @@ func (st *State) assumeTypeInv(v Value) {
 		st.assume(inRange(v.T, v.Ty))
 	case VRef, VIface, VFunc, VMap, VChan:
 		st.assume(fmt.Sprintf("(and (<= 0 %s) (< %s %s))", v.T, v.T, st.brk))
-		if v.Ty != nil && len(st.fx.eng.cs.NonNil) > 0 && st.fx.eng.cs.NonNil[fullTypeName(v.Ty)] {
-			st.assume("(not (= " + v.T + " 0))")
-		}
 	case VSlice:
 		st.assumeSliceInv(v)
 	case VStruct, VTuple:
@@ -457,6 +473,7 @@ func (st *State) alloc(t types.Type) Value {
 		return Value{K: VRef, T: r, Ty: types.NewPointer(t)}
 	}
 	st.storeAt(Addr{Root: r, Key: rootKey(t), Ty: t}, st.zero(t))
+	st.initGhosts(r, t)
 	return Value{K: VRef, T: r, Ty: types.NewPointer(t)}
 }
 
@@ -490,4 +507,29 @@ func sortedKeys(m map[string]bool) []string {
 	}
 	sort.Strings(ks)
 	return ks
+}
+
+// initGhosts gives ghost fields declared for type t their default value on a fresh object
+// (and, for struct types, on embedded/by-value fields is not attempted: only the object itself).
+func (st *State) initGhosts(r string, t types.Type) {
+	name := fullTypeName(t)
+	for _, g := range st.fx.eng.cs.Ghosts {
+		if g.Arg != name {
+			continue
+		}
+		sort, _ := ghostSort(g)
+		z := "0"
+		switch g.Res {
+		case "bool":
+			z = "false"
+		case "str":
+			z = "str_empty"
+		case "real":
+			z = "0.0"
+		case "bytes", "ints":
+			z = "((as const (Array Int Int)) 0)"
+		}
+		h := st.heapTermIn(st.heap, "ghost:"+g.Name, 1, sort)
+		st.heapSet("ghost:"+g.Name, fmt.Sprintf("(store %s %s %s)", h, r, z))
+	}
 }
